@@ -32,12 +32,23 @@
        boot sequence — C01_eval_preserves_rinv, C01_booted_minv, C01_session_minv (at the end of
        this file; Proofs/KeepCalc.v .. KeepRun.v, BootMinv.v); load_builtins binds every
        registered builtin name to its VBuiltin cell — C01_load_builtins_ok (Proofs/BootGenv.v);
+     * the same for fragment 4 = fragment 3 + lambda BODIES OF SEVERAL EXPRESSIONS (the non-last ones
+       compiled in non-tail position and evaluated for effect; `begin` is not a core form of the
+       compiler) — C01_fragment4_static, C01_fragment4_correct, C01_eval_fragment4
+       (Proofs/Closures4.v .. EvalFragment4.v);
+     * the same for fragment 6 = fragment 4 + `set!` ON LOCAL VARIABLES, captured or not, against a
+       reference semantics with a STORE OF LOCATIONS (environment = locations, closures capture
+       locations; machine side: a growing location map, closure values represented by pointer slots
+       only, the frame condition on environments weakened to "pointer slots unchanged, direct slots
+       stay direct") — C01_fragment6_static, C01_fragment6_correct, C01_eval_fragment6; the counter
+       ((lambda (n) ((lambda (inc) (inc) (inc)) (lambda () (set! n (if n #f #t)) n))) #f) is inside
+       the fragment (C01_counter6) (Proofs/FrameSteps5.v, StoreLocal5.v, Closures6.v .. EvalFragment6.v);
    together with the scoping theorems of C02, the frame theorems of C04, the
    continuation theorems of C05 and the run-loop theorems of C07/C13.
    OPEN: the semantic compile-correctness theorem for the whole language
-   (C01_compile_correct_stmt): `set!` on a local variable, the (define (f x) ...) spelling,
-   internal definitions, bodies of several expressions, variadic lambdas, quasiquote,
-   define-syntax and the derived forms of the prelude are outside the proved fragments. The
+   (C01_compile_correct_stmt): the (define (f x) ...) spelling, internal definitions, variadic
+   lambdas, builtins applied to closures, quasiquote, define-syntax and the derived forms of the
+   prelude are outside the proved fragments. The
    reference semantics used as the spec oracle by the check is lib/scheme_ref.py.  *)
 From Coq Require Import String.
 From MW Require Import Model.Base Model.Datum Model.VmTypes Model.Heap Model.VmBase Model.Compile Model.Vm
@@ -564,18 +575,27 @@ Proof. vm_compute. repeat split. Qed.
 (* The full statement, kept visible.  OPEN.  Proved: the fragment of C01_fragment_correct
    (constants, quote, if, global variables, global define / set!, builtin application), its
    extension C01_fragment2_correct (lambda expressions applied in place with local variables,
-   CALL and TCALL) and the extension C01_fragment3_correct (closures as values: lambda
+   CALL and TCALL), the extension C01_fragment3_correct (closures as values: lambda
    expressions in any position capturing variables of enclosing lambdas, application of
    closures, procedures named by (define f (lambda ...)) and called by name from later
-   expressions, recursion through the global), each up to Vm::eval (C01_eval_fragment,
-   C01_eval_fragment2, C01_eval_fragment3 and their _done forms; C01_done_state_ok for sessions).
-   Not covered: `set!` on local variables (captured or not: the reference semantics of fragment 3
-   captures VALUES, which is adequate only while locals are immutable; a store of locations is
-   needed), the (define (f x ...) body) spelling (same code as (define f (lambda ...)) up to the
-   free-symbol analysis of the define form), internal definitions, bodies of several
-   expressions, variadic lambdas, builtins applied to closures, quasiquote, define-syntax, the
-   derived forms of the prelude, builtins with effects other than allocation, and the defect
-   classes below. *)
+   expressions, recursion through the global), the extension C01_fragment4_correct (lambda bodies
+   of several expressions) and the extension C01_fragment6_correct (`set!` on local variables,
+   captured or not, against a reference semantics with a store of locations), each up to Vm::eval
+   (C01_eval_fragment, C01_eval_fragment2, C01_eval_fragment3, C01_eval_fragment4,
+   C01_eval_fragment6 and their _done forms; C01_done_state_ok / _ok4 / _ok6 for sessions).  The
+   machine invariant [minv] these theorems assume holds for the booted machine and every state of
+   a session (R2: C01_booted_minv, C01_session_minv, by preservation), so on the booted machine the
+   remaining premises are: the reference environment describes the globals the expression uses
+   ([genv_rel*]; proved for ALL builtin names right after load_builtins, C01_load_builtins_ok, not
+   after the prelude), the specification of the builtins used ([builtin_ok], proved for `not`), and
+   that the macro expander leaves the form alone (explicit [transform_expr] premise).
+   Not covered: the (define (f x ...) body) spelling (same code as (define f (lambda ...)) up to the
+   free-symbol analysis of the define form), internal definitions, variadic lambdas, builtins
+   applied to closures, closure results in the _done forms, quasiquote, define-syntax, the
+   derived forms of the prelude (they are macros: `let`, `begin`, `cond`, ... expand into the core
+   forms of the fragments, but the expander is not part of the proved pipeline), builtins with
+   effects other than allocation (set-car!, vector-set!, display, call/cc, apply, eval), and the
+   defect classes below. *)
 Definition C01_compile_correct_stmt : Prop :=
   forall (reference : list text -> list N) (forms : list text),
     (* for every session of the generator grammar outside the recorded defect classes *)
@@ -721,22 +741,11 @@ Theorem C01_session_minv : forall s0 s, booted = Some s0 -> FlatAll.evals s0 s -
 Proof. exact BootMinv.session_minv. Qed.
 Print Assumptions C01_session_minv.
 
-(* C01_eval_fragment3 on the booted machine and on every session state: the premise [minv] is
-   discharged.  What remains: the reference environment rho must describe (part of) the
+(* C01_eval_fragment3 on the booted machine: the premise [minv] is discharged (the same holds on
+   every state of a session: Proofs/BootCorollaries.v eval_fragment3_session, and
+   C01_eval_fragment6_session below for the largest fragment).  What remains: the reference environment rho must describe (part of) the
    machine's globals ([genv_rel3 rho s]; the empty environment always does), and the macro
    expander must leave the form alone (explicit premise, as before). *)
-Theorem C01_eval_fragment3_session :
-  forall (ob : N -> M vcell) (bsem : N -> list rval -> option rval),
-  (forall b, builtin_ok ob bsem b) -> (forall b, builtin_envs ob bsem b) ->
-  forall e rho r rho' s0 s,
-  booted = Some s0 -> FlatAll.evals s0 s ->
-  wf3 e [] -> ref_eval3 bsem [] [] rho e r rho' -> genv_rel3 rho s ->
-  transform_expr TRANSFORM_FUEL s (cell_of3 e) = Ok (cell_of3 e) ->
-  exists n m, (forall fuel, (n <= fuel)%nat -> eval ob fuel (cell_of3 e) s = halt_result m) /\
-    vrep3 m (acc m) r /\ genv_rel3 rho' m /\ minv m /\ cext s m /\
-    sp m = sp s /\ bp m = bp s /\ ep m = ep s /\ out_log m = out_log s.
-Proof. exact BootCorollaries.eval_fragment3_session. Qed.
-Print Assumptions C01_eval_fragment3_session.
 Theorem C01_eval_fragment3_booted :
   forall (ob : N -> M vcell) (bsem : N -> list rval -> option rval),
   (forall b, builtin_ok ob bsem b) -> (forall b, builtin_envs ob bsem b) ->
@@ -862,23 +871,6 @@ Theorem C01_done_state_ok4 : forall rho m, minv m -> genv_rel4 rho m ->
   minv (with_stack m tempty (sp m)) /\ genv_rel4 rho (with_stack m tempty (sp m)).
 Proof. exact done_state_ok4. Qed.
 Print Assumptions C01_done_state_ok4.
-
-(* on the booted machine and every session state (R2) *)
-Theorem C01_eval_fragment4_session :
-  forall (ob : N -> M vcell) (bsem : N -> list rval -> option rval),
-  (forall b, builtin_ok ob bsem b) -> (forall b, builtin_envs ob bsem b) ->
-  forall e rho r rho' s0 s,
-  booted = Some s0 -> FlatAll.evals s0 s ->
-  wf4 e [] -> ref_eval4 bsem [] [] rho e r rho' -> genv_rel4 rho s ->
-  transform_expr TRANSFORM_FUEL s (cell_of4 e) = Ok (cell_of4 e) ->
-  exists n m, (forall fuel, (n <= fuel)%nat -> eval ob fuel (cell_of4 e) s = halt_result m) /\
-    vrep4 m (acc m) r /\ genv_rel4 rho' m /\ minv m /\ cext s m /\
-    sp m = sp s /\ bp m = bp s /\ ep m = ep s /\ out_log m = out_log s.
-Proof.
-  intros ob bsem Hb He e rho r rho' s0 s B R Hwf HR G Ht.
-  exact (eval_fragment4 ob bsem Hb He e rho r rho' s Hwf HR (BootMinv.session_minv s0 s B R) G Ht).
-Qed.
-Print Assumptions C01_eval_fragment4_session.
 
 (* non-vacuity: ((lambda (x) 'ignored x) '(1 2)) — a body of two expressions, the first evaluated
    for effect — has the reference value (1 2), the hypotheses hold on the empty machine ... *)
